@@ -17,7 +17,7 @@ from engines import recplay as R
 PROP = 'C15'
 PREFIXES = ['', 'a', 'ab', 'a/b', 'b', 'full_runs', 'metadata_v2', 'a/full_runs', 'a/', 'a/b/', '/abs']
 # categories as services name them: class names and route-like names with a leading slash
-CATS15 = list(S.CATEGORIES) + ['/api/plan']
+CATS15 = list(S.CATEGORIES) + ['/api/plan', 'fetch_metadata', 'api/metadata']
 FOREIGN = ['tape_recorder_recordings/fullx/full/OpA/20200101/9', 'tape_recorder_recordings/metadata-old/metadata/OpA/20200101/9',
            'tape_recorder_recordings/a/fullness/x', 'other/x', 'tape_recorder_recordingsX/full/OpA/20200101/1', 'tape_recorder_recordings/a_foreign', 'tape_recorder_recordings/abc/full/OpA/20200101/1',
            'tape_recorder_recordings', 'zzz']
